@@ -5,7 +5,9 @@ open Pyemv Pyemv.Gen
 
 theorem mac_pad2 (d : Bytes) (bs : Option Nat) : Gen.mac.pad_iso9797_2 d bs = pad2 d bs := by
   unfold Gen.mac.pad_iso9797_2 pad2
-  simp only [mac_pad1, bind, Except.bind, pure, Except.pure]
+  try simp only [bind_pure]      -- `do let v ← e; pure v` is `e` (single-exit rewrites)
+  simp only [mac_pad1, bind, Except.bind, pure, Except.pure, except_match_eta]
   repeat (first | rfl | split)
+  all_goals first | (simp_all; done) | omega | slice_forms
 
 end Pyemv.ModRefines
